@@ -661,3 +661,31 @@ Proof.
   intros Hc HW HS Hcp. rewrite upload_unfold.
   destruct (copy_node_succeeds (guard g flt) chunk Hc t HW ign dst Hcp (or_intror HS)) as (r & ->). cbn [bind]. now eexists.
 Qed.
+
+(* ================================================================== 8. no filter; upload_package *)
+Lemma no_special_dir es : no_special (Dir es) = true <-> Forall (fun e => no_special (snd e) = true) es.
+Proof.
+  cbn [no_special]. induction es as [|[k c] r IH].
+  - split; [constructor|reflexivity].
+  - rewrite andb_true_iff, IH. split.
+    + intros [H1 H2]. now constructor.
+    + intros H. inversion H; subst. now split.
+Qed.
+
+(* without a filter, a tree that has only files and directories is kept whole *)
+Lemma prune_all f t : (forall k, f k = true) -> no_special t = true -> prune f t = t.
+Proof.
+  intros Hf. induction t as [d| |es IH] using node_ind'; intros HS; try reflexivity.
+  apply no_special_dir in HS. cbn [prune]. f_equal.
+  induction es as [|[k c] r IHr]; [reflexivity|].
+  inversion IH as [|? ? H1 H2]; subst. inversion HS as [|? ? S1 S2]; subst. cbn [snd] in H1, S1.
+  cbn [prune_entries]. rewrite Hf, (IHr H2 S2), (H1 S1). destruct c; try reflexivity. discriminate.
+Qed.
+
+Theorem upload_package_fresh g chunk t : 1 <= chunk -> wf_tree t = true -> no_special t = true ->
+  upload_package g chunk {| at_local := Some t; at_remote := None |} = Ok {| at_local := Some t; at_remote := Some t |}.
+Proof.
+  intros Hc HW HS. unfold upload_package.
+  assert (t <> Special) by (intros ->; discriminate).
+  rewrite (upload_fresh g None chunk false t Hc HW H). now rewrite (prune_all (guard g None) t (fun _ => eq_refl) HS).
+Qed.
